@@ -47,6 +47,30 @@ pub fn run(c: &Case, rep: &mut Report) {
             rep.violation(c, "C11/map-of-an-earlier-emission-reported", &format!("after removing every function the module was emitted again: the custom section was handed {} instruction pairs and {} function ranges for a binary without code", pairs, ranges), &[("out.wasm", out)]);
         }
     }
+    // ... or only a function built afterwards is left: no pair (it has no input location), and the reported
+    // code-section start and range must be those of the emitted binary
+    if let (Some(out), Some(1), Some(1)) = (end.get("out.emptied"), end.num("emptied.local_funcs"), end.num("emptied.built")) {
+        if let Ok(dout) = decode::decode(out) {
+            if let Some(cr) = &dout.code_range {
+                rep.count("second-emissions-with-only-a-built-function", 1);
+                let start = end.num("ct.start.emptied").unwrap_or(u64::MAX) as i64;
+                if start != cr.start as i64 {
+                    rep.violation(c, &format!("C11/code-section-start/delta={}", start - cr.start as i64), &format!("emptied: only a builder-made function is emitted; reported code_section_start {} but the code section contents start at {}", start, cr.start), &[("out.wasm", out)]);
+                }
+                let pairs = end.str_or("ct.map.emptied", "").lines().filter(|l| !l.is_empty()).count();
+                if pairs != 0 {
+                    rep.violation(c, "C11/pair-for-an-instruction-without-input-location", &format!("emptied: {} pairs reported although the only function was built through the API", pairs), &[("out.wasm", out)]);
+                }
+                let body = dout.funcs.iter().filter_map(|f| f.body.as_ref()).next();
+                let ranges: Vec<(usize, usize)> = end.str_or("ct.ranges.emptied", "").lines().filter_map(|l| { let mut it = l.split(':'); it.next(); Some((it.next()?.parse().ok()?, it.next()?.parse().ok()?)) }).collect();
+                if let Some(b) = body {
+                    if ranges.len() != 1 || ranges[0] != (b.entry_start, b.range.end) {
+                        rep.violation(c, "C11/function-range", &format!("emptied: ranges {:?} reported, the only code entry of the emitted binary is [{}, {})", ranges, b.entry_start, b.range.end), &[("out.wasm", out)]);
+                    }
+                }
+            }
+        }
+    }
     let mut pairs_checked = 0u64;
     let loc_shift: usize = if end.num("cfg").map(|c| c & 128 != 0).unwrap_or(false) { 1_000_000 } else { 0 };
     if loc_shift > 0 {
